@@ -158,6 +158,9 @@ pub fn replay(id: &str, ops: &[Op], case: &serde_json::Value) -> Result<(), Stri
             return Err(describe(ops, &seq, i, &got[i], &wants[i]));
         }
     }
+    if mode == Mode::Verdict && seq.len() == 1 && (wants[0].starts_with("FAIL") || wants[0].starts_with("PANIC")) {
+        return Err(format!("`{}` gives {}", ops[seq[0]].name, clip(&wants[0])));
+    }
     Ok(())
 }
 
@@ -204,6 +207,18 @@ pub fn explore_with(run: &Run, id: &str, ops: &[Op], depth: usize, mode: Mode, b
     if let Some(bad) = base.iter().position(|b| b.starts_with("MACHINERY")) {
         run.cap(&format!("call-history baselines unavailable ({}): {}", ops[bad].name, base[bad]));
         return;
+    }
+    // a property op whose oracle fails with NO history at all is a plain violation of the property on that input
+    // (the inputs of the ops are plain well-formed ones; values with a known finding are not among them)
+    if mode == Mode::Verdict {
+        let mut failing = 0u64;
+        for k in 0..n {
+            if !ops[k].is_context && (base[k].starts_with("FAIL") || base[k].starts_with("PANIC") || base[k].starts_with("CRASH")) {
+                failing += 1;
+                run.violation(&format!("`{}` made as the first call of a fresh process gives {}", ops[k].name, clip(&base[k])), case_json(id, ops, &[k], 0, mode, base_from), feats);
+            }
+        }
+        run.count(&format!("history_property_ops_failing_without_history_depth{depth}"), failing);
     }
     let reported = Mutex::new(std::collections::HashSet::<(usize, usize)>::new());
     let mismatches = AtomicU64::new(0);
